@@ -29,7 +29,7 @@ from ..realise import fsdoc
 
 SPEC = os.path.join(SPECS, "fs", "MC_FsConfine.tla")
 TRACE_SPEC = os.path.join(SPECS, "fs", "FsTrace.tla")
-INVARIANTS = ["ReadsConfined", "WritesConfined", "NeverOverwrite", "DistinctNames", "BlameSound", "LookupBounded"]
+INVARIANTS = ["ListsConfined", "ReadsConfined", "WritesConfined", "NeverOverwrite", "DistinctNames", "BlameSound", "LookupBounded"]
 BOUNDS = {"quick": {"cmap": 3, "image": 2, "image_cases": "AllImageCases", "image_more": None, "image_deep": None, "image_ext": 1, "look": 2},
           "thorough": {"cmap": 4, "image": 2, "image_cases": "AllImageCases", "image_more": 3, "image_deep": 4, "image_ext": 2, "look": 3}}
 BATCH = 16
